@@ -20,8 +20,9 @@ ValueOf(base, name, flipped) ==
 Config(base, F) ==
   [base |-> base, k |-> IF base = "lalrk" THEN 2 ELSE 0,
    opts |-> [n \in ({ Options[i] : i \in F } \cup Home[base]) |-> ValueOf(base, n, \E i \in F : Options[i] = n)]]
-All == SetToSeq({ Config(Bases[b], F) : b \in 1..Len(Bases), F \in Flips })
-Out == SelectSeq([i \in 1..Len(All) |-> [i |-> i, c |-> All[i]]], LAMBDA x : x.i % Stride = Offset)
+(* every single flip is always emitted; the stride samples the pairwise ones *)
+All == SetToSeq({ [c |-> Config(Bases[b], F), n |-> Cardinality(F)] : b \in 1..Len(Bases), F \in Flips })
+Out == SelectSeq([i \in 1..Len(All) |-> [i |-> i, c |-> All[i].c, n |-> All[i].n]], LAMBDA x : x.n <= 1 \/ x.i % Stride = Offset)
 ASSUME PrintT(<<"c17gen configs", Len(All), "emitted", Len(Out)>>)
 ASSUME ndJsonSerialize(IOEnv.VERIF_OUT, [i \in 1..Len(Out) |-> Out[i].c])
 VARIABLE x
